@@ -1,41 +1,89 @@
-"""Static metadata per property: claimed level, assumptions, trusted base."""
+"""Static metadata per property: claimed level, assumptions, trusted base, MANIFEST texts."""
 
 TRUSTED_BASE = [
-    "CBMC 6.11.0 (goto-cc, goto-instrument contract instrumentation, symbolic execution) and its SAT back end minisat2",
-    "CBMC's C memory model on LP64 (x86_64 data model; objects < 2^54 bytes with --object-bits 10)",
-    "CBMC built-in library models of memset/memmove/strlen (E1) ",
+    "CBMC 6.11.0: goto-cc, goto-instrument (DFCC contract instrumentation; legacy --apply-loop-contracts), symbolic execution, SAT back end minisat2",
+    "CBMC's C memory model, LP64 (x86_64); --object-bits 10",
+    "CBMC built-in models of memmove/memset(constant size)/memcpy; assumed contracts (verif/stubs/vc_libc.h) for memcmp, strlen, memset of symbolic size, snprintf/printf",
+    "harness-built caller objects (typed heap blocks of exactly the stated sizes) stand for 'valid separate caller objects'",
 ]
 
 COMMON_ASSUMPTIONS = [
-    "machine arithmetic is bit-precise (not mathematical); data model LP64 only (no 32-bit libc headers in the image, ILP32 not checked)",
+    "machine arithmetic is bit-precise (not mathematical); data model LP64 only (no 32-bit libc headers in the image: ILP32 not checked)",
     "implementation-defined conversions as gcc/clang define them (out-of-range unsigned->signed wraps); --conversion-check is off for that reason",
-    "induction over call sequences (class invariant INV holds before every call of any sequence that starts with an init on valid pointers) is a paper argument over the per-function proofs",
-    "buffers are at most 2^32 bytes (VC_MAX_BUF); pointers passed by the caller are valid and do not alias each other except as the API documents",
+    "induction over call sequences (the class invariant holds before every call of any sequence that starts with an init on valid pointers) is a paper argument over the per-function proofs",
+    "buffers are at most 2^32 bytes (VC_MAX_BUF); pointers passed by the caller are valid and separate",
+    "callers of _advance_parsing are proved against its in-source contract (--replace-call-with-contract); that contract is checked on the real body by the E2 jobs for max_depth in the enumerated set only (quick: {1}, thorough: {1,2,3}) and is an assumption for other values",
+    "the all-levels part of the class invariant (VC_LEVEL_FACTS) is carried by E2 and by the static fact that only _advance_parsing and binson_parser_reset write the state array",
+    "memcmp(a, b, 0) touches nothing (true of every libc; formally unspecified for invalid pointers)",
 ]
+
+BOUNDED_NOTE = ("bounded stand-in: CBMC --unwind N+2 --unwinding-assertions from init on ALL inputs up to the stated bound; "
+                "says nothing beyond the bound; the executable specification verif/spec/ref_binson.h is the trusted oracle "
+                "(cross-checked against the shipped corpus and 4M random inputs during development)")
 
 PROPS = {}
 
 
-def P(pid, level, **kw):
-    d = {"level": level}
+def P(pid, level, text, note, technique, design, **kw):
+    d = {"level": level, "text": text, "note": note, "technique": technique, "design": design}
     d.update(kw)
     PROPS[pid] = d
 
 
-P("C01", "proof")
-P("C02", "model_checking")
-P("C03", "proof")
-P("C04", "proof")
-P("C05", "proof")
-P("C06", "model_checking")
-P("C07", "model_checking")
-P("C08", "model_checking")
-P("C09", "proof")
-P("C10", "model_checking")
-P("C11", "model_checking")
-P("C12", "proof")
-P("C13", "proof")
-P("C14", "model_checking")
-P("C16", "proof")
-P("C17", "proof")
-P("C18", "proof")
+P("C01", "proof",
+  "Every parser function is proved (CBMC code contracts, all inputs, no unwinding bound) to preserve the class invariant, to dereference only the parser object, its state array of exactly max_depth entries and the input buffer of exactly buffer_size bytes, to write only inside its assigns clause (parser fields + state array), and to hand back only spans inside the buffer; init/reset establish the invariant from arbitrary struct contents, including when they reject the buffer. The token loop _advance_parsing is proved with an inductive loop invariant for max_depth in an enumerated set.",
+  "max_depth enumerated for _advance_parsing (quick {1}, thorough {1,2,3}) and for leave_*/get_raw/field_with_length ({1,3} / {1}); assumed libc contracts; field lookups proved memory-safe for any position; see assumptions in the evidence file",
+  "CBMC function contracts (DFCC) + loop contracts on the real source", "5/C01")
+P("C02", "model_checking",
+  "Local rules proved for all inputs by contract (_parse_integer shortest form, _process_one token grammar incl. length range/fit, reset first/last byte, _cmp_name order); the language-level 'iff' is decided BOUNDED: init+verify agrees with an independent executable recogniser on all byte strings of exactly N bytes (quick N<=7, thorough N<=9), both roots, max_depth 1..3, including the MAX_DEPTH error codes.",
+  BOUNDED_NOTE, "contract proofs of the token rules + CBMC bounded equivalence with a reference recogniser", "5/C02",
+  bounded={"max_bytes_quick": 7, "max_bytes_thorough": 9, "max_depth": [1, 2, 3], "roots": ["object", "array"]})
+P("C03", "proof",
+  "Per-token decode is proved for all inputs: sign extension of all four widths for all bit patterns (_parse_integer), exact token extents and payload spans (_process_one), getter gating and neutrality, double bit-identity through the getter, string_equals iff (relative to the memcmp/strlen contracts). The composition 'next reports the element the bytes encode' is additionally checked bounded against the reference cursor.",
+  "composition over a traversal is bounded (see C06); memcmp/strlen contracts assumed", "CBMC function contracts on decode path + bounded traversal vs reference cursor", "5/C03")
+P("C04", "proof",
+  "_write, _write_token and every binson_write_* are proved for all capacities (0, NULL included), all counters and all lengths up to 2^32: the frame is exactly the len bytes behind the counter and only when no error is latched and the piece fits (so nothing is stored at or beyond capacity, nothing before the counter, nothing after an error); counter' = counter + exact encoded size always; RANGE iff the piece does not fit.",
+  "sequence-level statements (counter = sum, prefix, rerun fits) follow from the per-call clauses by summation over the call sequence (paper step); no counter wrap assumed; lengths > INT32_MAX are rejected with FORMAT (outside the RANGE-iff clause)",
+  "CBMC function contracts (DFCC) with conditional assigns clauses", "5/C04")
+P("C05", "proof",
+  "_int_pack_size is proved to choose the unique shortest width for every int64 and to lay the bytes little-endian; every write function is proved to append exactly type byte + canonical length/integer bytes + verbatim payload (ghost byte index, all values); doubles as their 8 IEEE-754 bytes.",
+  "document-level acceptance by verify is covered only through C02's bounded check and the token contracts (composition on paper)", "CBMC function contracts: encoder equals a byte-level specification", "5/C05")
+P("C06", "model_checking",
+  "BOUNDED: for enumerated call sequences, on all valid documents of exactly N bytes on which the sequence is protocol-following, every return value, get_depth, get_type, get_name and typed getter equals the reference cursor and no error is raised. Structural facts (invariant, latching, cursor monotone) are proved unbounded (E1/E2).",
+  BOUNDED_NOTE + "; histories that enter the listed known finding C06-array-toggle-parity are not compared further (the pinned run reports it)",
+  "CBMC bounded check of the real parser against a reference cursor, one run per call sequence", "5/C06",
+  bounded={"max_bytes_quick": 7, "max_bytes_thorough": 9, "max_calls": 7, "max_depth": 3})
+P("C07", "model_checking",
+  "Mechanisms proved unbounded: _cmp_name is the bytewise three-way compare (relative to the memcmp contract, unsigned bytes, prefix rule), lookups preserve the invariant and latch, _ensure variants set WRONG_TYPE/return true only on matching type, a true lookup means equal name bytes. 'Finds exactly the present names / never loses later fields' is BOUNDED against the reference cursor on all valid objects of N bytes for enumerated lookup sequences.",
+  BOUNDED_NOTE, "contracts on compare/lookup + CBMC bounded check vs reference cursor", "5/C07",
+  bounded={"max_bytes_quick": 7, "max_bytes_thorough": 9, "names": "1-2 symbolic bytes"})
+P("C08", "model_checking",
+  "BOUNDED: (a) valid document and protocol-following sequence => every call succeeds without error (nav runs); (b) verify-iff-ref on all byte strings. The shared-loop facts (one loop for verify and navigation, per-token rules independent of scan flags) are carried by the contracts of _process_one and _advance_parsing.",
+  BOUNDED_NOTE + "; the converse direction for arbitrary invalid bytes and arbitrary traversals is only covered through the shared per-token contract, not by an exhaustive traversal enumeration",
+  "CBMC bounded traversal runs + contract of the shared token loop", "5/C08",
+  bounded={"max_bytes_quick": 7, "max_bytes_thorough": 9})
+P("C09", "proof",
+  "Every advancing parser function is proved to return false and leave cursor, depth, current_state and the error code unchanged once an error is set; getters are proved neutral under any error; _advance_parsing returns true only without error; verify false always leaves a code. Writer: proved that an error is never cleared by a write, nothing is stored once set (frame), the counter keeps counting, return value == (error == NONE).",
+  "only init/reset/verify clear an error (their contracts)", "CBMC function contracts (latching post-conditions)", "5/C09")
+P("C10", "model_checking",
+  "Token-level inverse facts proved for all values: writer output of an integer/length is the canonical width and bytes that _parse_integer/_process_one accept and decode to the same value (contracts on both sides share the byte-level specification VC_WIDTH/VC_SVAL/VC_LE_BYTE); payloads verbatim. Whole-document transcription is BOUNDED.",
+  BOUNDED_NOTE, "shared byte-level spec in encoder and decoder contracts + bounded transcription", "5/C10",
+  bounded={"max_bytes_quick": 7})
+P("C11", "model_checking",
+  "Proved unbounded: get_raw on a non-container returns false and leaves the parser unchanged; on success the span starts at the cursor, ends at the new cursor and lies inside the buffer; write_raw appends exactly the given bytes. 'Span = BEGIN..matching END, cursor continues after it' is BOUNDED against the reference cursor.",
+  BOUNDED_NOTE, "contracts on get_raw/write_raw + CBMC bounded check vs reference cursor", "5/C11",
+  bounded={"max_bytes_quick": 7, "max_bytes_thorough": 9})
+P("C12", "proof",
+  "init, reset and a successful verify are proved to establish one fully specified state (every scalar field, every byte-level field of every state entry zero - ghost level index) from completely arbitrary struct and state-array contents; a rejected init/reset still defines depth and current_state; the token loop is proved to keep every unused level zeroed (level wiped when an object is left). Writer init/reset likewise.",
+  "history independence of the remaining calls follows from their frames (they read only parser, state array, buffer) and from E4 (no static data)", "CBMC function contracts (canonical post-state from arbitrary pre-state)", "5/C12")
+P("C16", "proof",
+  "Every loop of the library carries a decreases clause that CBMC discharges: the token loop (remaining bytes + 1, for max_depth in the enumerated set), the integer width loops (bounded by type, unwinding assertions), the pack loop; no recursion (E4 call graph).",
+  "the lookup loop of field_with_length has a loop invariant but no decreases clause yet: its termination is not claimed; libc functions terminate by assumption; linear-work accounting (callbacks per byte) not yet stated as a clause",
+  "CBMC loop contracts with decreases clauses + acyclic call graph", "5/C16")
+P("C17", "proof",
+  "Static facts of the goto binary of the library (with and without BINSON_PARSER_WITH_PRINT): call graph acyclic with the callback pointer resolved, no allocator reachable, external callees within {memcmp,memmove,memset,strlen,snprintf,printf}, no writable static-lifetime object, no variably-sized local. Plus the assigns clauses of every function under contract: writes only into caller objects.",
+  "source/goto level only: the per-compiler object-code facts (nm, -fstack-usage at -O0/-O2/-Os) are outside this technique and not claimed", "goto-program static facts + DFCC frame checks", "5/C17")
+P("C18", "proof",
+  "Sufficient condition: every function under contract is free of the undefined behaviours CBMC checks (bounds, invalid pointers, signed overflow, shifts, pointer overflow) and meets deterministic functional post-conditions stated on bytes (no host byte order, unsigned byte comparison), for all inputs.",
+  "not the differential build experiment of the quantifier; LP64 only; strict aliasing and evaluation order are outside CBMC's checks; run under the default (signed) plain-char model, the unsigned-char model in the thorough tier",
+  "absence of UB + byte-level functional contracts for all inputs", "5/C18")
